@@ -19,6 +19,11 @@ func (te *tableEngine) tableGameOpen() error {
 		return nil
 	}
 
+	// a closed or released table opens no more hands
+	if te.table.State.Status == TableStateStatus_TableClosed || te.isReleased {
+		return nil
+	}
+
 	// 開局
 	newTable, err := te.openGame(te.table)
 
